@@ -1,3 +1,4 @@
+#include <limits>
 #include <occa/internal/modes/serial/device.hpp>
 #include <occa/internal/modes/serial/buffer.hpp>
 #include <occa/internal/modes/serial/memory.hpp>
@@ -6,6 +7,15 @@
 #endif
 
 namespace occa {
+
+  dim_t entriesToBytes(const dim_t entries, const int dtypeSize) {
+    const dim_t maxBytes = std::numeric_limits<dim_t>::max() / 2;
+    OCCA_ERROR("Cannot use a negative number of entries (" << entries << ")",
+               entries >= 0);
+    OCCA_ERROR("[" << entries << "] entries of [" << dtypeSize << "] bytes are out of range",
+               (dtypeSize <= 0) || (entries <= (maxBytes / dtypeSize)));
+    return entries * dtypeSize;
+  }
 
   modeMemory_t::modeMemory_t(modeBuffer_t *modeBuffer_,
                              udim_t size_, dim_t offset_) :
